@@ -1315,6 +1315,50 @@ def c08_history(case):
     finally:
         reset_table()
 
+
+
+def c07_after_reject(case):
+    if not set_table(case["table"]):
+        return ok("table A rejected")
+    try:
+        A = sf.get_semantic_constraints()
+        try:
+            sf.set_semantic_constraints(dict(case["bad"]))
+            return ok("second table accepted (C12's subject)")
+        except ValueError:
+            pass
+        r = c07_alphabet_now(A)
+        if r is not None:
+            return r
+        d = _dec(case["selfies"])
+        if d[0] != "ok":
+            return bad("C07:after-rejected-update", "table %s in force, update %s rejected, then decoder(%r) -> %s" % (_short(case["table"]), case["bad"], case["selfies"], d[0]))
+        f = smiles_faults(d[1], A, "C07")
+        if f is not None:
+            f["sig"] = "C07:after-rejected-update"
+            f["detail"] = "table %s in force, update %s rejected, then decoder(%r): %s" % (_short(case["table"]), case["bad"], case["selfies"], f["detail"])
+            return f
+        return ok()
+    finally:
+        reset_table()
+
+
+def c07_alphabet_now(tab):
+    from . import docs
+    alpha = set(sf.get_semantic_robust_alphabet())
+    want = set(docs.DOC_INDEX) | {"[%sBranch%d]" % (b, i) for b in ("", "=", "#") for i in (1, 2, 3)} | \
+        {"[%sRing%d]" % (b, i) for b in ("", "=") for i in (1, 2, 3)}
+    for k, v in tab.items():
+        if k == "?":
+            continue
+        for b, o in (("", 1), ("=", 2), ("#", 3)):
+            if o <= v:
+                want.add("[%s%s]" % (b, k))
+    if alpha != want:
+        return bad("C07:after-rejected-update", "after a rejected update the robust alphabet no longer matches the table in force %s: extra %s, missing %s"
+                   % (_short(tab), sorted(alpha - want)[:4], sorted(want - alpha)[:4]))
+    return None
+
 # ---------------------------------------------------------------------------
 
 KINDS = {
@@ -1352,6 +1396,7 @@ KINDS = {
     "ring_order": lemma_ring_order,
     "stable_history": c10_history,
     "decoder_total_history": c08_history,
+    "robust_after_reject": c07_after_reject,
     "state_fn": lemma_state_fn,
     "ring_step": lemma_ring_step,
 }
